@@ -518,7 +518,7 @@ def c19(run):
 
 
 def c20(run):
-    return generic_check(run, [("MC_serde.cfg", "MC_serde.tla", {"timeout": 300})], [],
+    return generic_check(run, [("MC_serde.cfg", "MC_serde.tla", {"timeout": 300})], [("MC_serde_t.cfg", "MC_serde.tla", {"timeout": 900, "workers": 8})],
         [("serde", ["map:kv16:collide:24:900:serde", "map:k4v4:zero:14:400:serde"]),
          ("serdeset", ["set:k8t:collide:20:700:serdeset", "set:k1:fewpos:16:300:serdeset"])],
         [("serde2", ["map:kv24:mixed:40:4000:serde", "map:kv200:collide:20:2000:serde", "set:k8t:zero:14:3000:serdeset"]),
